@@ -48,6 +48,34 @@ def canonicalise(tree):
     -- as its whole value (`return t`, `x = t`) or as a leading argument of its top-level call (`x = f(t, ...)`, nothing with
     an effect evaluated before it) -- is substituted into that statement, provided `t` is a plain local that no nested scope can
     see.  Positions of the consuming statement are kept."""
+    # `T = A if c else B` -> `if c: T = A else: T = B`;  `return A if c else B` -> `if c: return A else: return B`
+    for node in ast.walk(tree):
+        for field in ("body", "orelse", "finalbody"):
+            block = getattr(node, field, None)
+            if not (isinstance(block, list) and block and isinstance(block[0], ast.stmt)):
+                continue
+            for i, st in enumerate(block):
+                if isinstance(st, (ast.Assign, ast.Return)) and isinstance(st.value, ast.IfExp) \
+                        and (isinstance(st, ast.Return) or (len(st.targets) == 1 and isinstance(st.targets[0], ast.Name))):
+                    def arm(v, st=st):
+                        if isinstance(st, ast.Return):
+                            return ast.copy_location(ast.Return(value=v), v)
+                        return ast.copy_location(ast.Assign(targets=[ast.Name(id=st.targets[0].id, ctx=ast.Store())], value=v, lineno=st.lineno), v)
+                    block[i] = ast.copy_location(ast.If(test=st.value.test, body=[arm(st.value.body)], orelse=[arm(st.value.orelse)]), st)
+    # `T[k] = T[k] <op> e`  ->  `T[k] <op>= e`   (element stores: read, operate, write back -- the same three steps either way)
+    for node in ast.walk(tree):
+        for field in ("body", "orelse", "finalbody"):
+            block = getattr(node, field, None)
+            if not (isinstance(block, list) and block and isinstance(block[0], ast.stmt)):
+                continue
+            for i, st in enumerate(block):
+                if isinstance(st, ast.Assign) and len(st.targets) == 1 and isinstance(st.targets[0], ast.Subscript) \
+                        and isinstance(st.value, ast.BinOp) and isinstance(st.value.left, ast.Subscript) \
+                        and isinstance(st.value.op, (ast.Add, ast.Sub, ast.Mult, ast.Div)) \
+                        and ast.dump(st.value.left.value) == ast.dump(st.targets[0].value) \
+                        and ast.dump(st.value.left.slice) == ast.dump(st.targets[0].slice) \
+                        and not any(isinstance(x, ast.Call) for x in ast.walk(st.targets[0])):
+                    block[i] = ast.copy_location(ast.AugAssign(target=st.targets[0], op=st.value.op, value=st.value.right), st)
     for fn in ast.walk(tree):
         if not isinstance(fn, (ast.FunctionDef, ast.AsyncFunctionDef)):
             continue
@@ -198,6 +226,12 @@ class Program:
         self._index()
         self._resolve_imports()
         self._resolve_bases()
+        # private helpers that the rule set does not know are looked through (extract-method refactorings), see sa/inline.py
+        from .inline import inline_unknown_helpers, known_helpers
+        self.inlined = inline_unknown_helpers(self, known_helpers())
+        if self.inlined:
+            for mi in self.modules.values():
+                canonicalise(mi.tree)
         self._set_parents()
 
     # ------------------------------------------------------------------ load
@@ -374,6 +408,8 @@ class Program:
         for mi in self.modules.values():
             for parent in ast.walk(mi.tree):
                 for ch in ast.iter_child_nodes(parent):
+                    if isinstance(ch, (ast.expr_context, ast.operator, ast.unaryop, ast.boolop, ast.cmpop)):
+                        continue          # shared singletons of the parser: never attach analysis state to them
                     ch._parent = parent
             mi.tree._parent = None
 
